@@ -342,12 +342,12 @@ func (u *Unit) stmt(st *State, s ast.Stmt, c *Ctl, k func(*State)) {
 	case *ast.SendStmt:
 		ev := u.ev(st, x.Pos())
 		ch := ev.expr(x.Chan)
-		ev.expr(x.Value)
+		sent := ev.expr(x.Value)
 		// "send#k": anchor and call-site assertions at the k-th send statement of the unit (what must already hold when the
-		// value is handed over)
+		// value is handed over; the value itself is arg0 / arg_sent)
 		ord := fmt.Sprintf("send#%d", u.sendOrdOf(x))
 		u.ghostAt(st, ord, x.Pos())
-		u.callSiteClauses(ev, ord, nil, nil, nil)
+		u.callSiteClauses(ev, ord, []string{"sent"}, []Value{sent}, nil)
 		u.chanSendEffect(st, ch)
 		k(st)
 	case *ast.SelectStmt:
@@ -1328,13 +1328,25 @@ func (u *Unit) selectStmt(st *State, x *ast.SelectStmt, c *Ctl, k func(*State)) 
 		}
 		run := func(s3 *State) {
 			u.ghostAt(s3, "arm "+armName, cl.Colon+1)
+			// "call arm <chan>: assume P": channel-content invariant - what every verified sender asserts of the values it
+			// sends (send#k clauses) may be assumed of a value received from that channel (listed as an assumption)
+			if u.c != nil {
+				for _, ca := range u.c.CallAssumes["arm "+armName] {
+					sev := u.specEv(s3, cl.Colon+1, u.name+" arm "+armName)
+					s3.assume(sev.expr(ca.Expr).T)
+					u.assumeNote("assumed of every value received from " + armName + " in " + u.name + " (channel-content invariant, asserted at the sends): " + ca.Text)
+				}
+			}
 			u.block(s3, cl.Body, c, k)
 		}
 		switch s := cl.Comm.(type) {
 		case *ast.SendStmt:
 			e2 := u.ev(s2, s.Pos())
 			ch := e2.expr(s.Chan)
-			e2.expr(s.Value)
+			sent := e2.expr(s.Value)
+			ord := fmt.Sprintf("send#%d", u.sendOrdOf(s))
+			u.ghostAt(s2, ord, s.Pos())
+			u.callSiteClauses(e2, ord, []string{"sent"}, []Value{sent}, nil)
 			u.chanSendEffect(s2, ch)
 			run(s2)
 		case *ast.ExprStmt:
